@@ -16,6 +16,11 @@ Oracles (none calls the code under test):
     second-to-last data batch must end at offset <= c (identity bodies, offsets found by parsing the IPC stream
     with pyarrow); for content-encoded bodies the wire length must be <= c + (bytes written after that batch) +
     a generous codec-framing slack.
+
+Capped token walk: ``next_with_token`` is also driven through the routed (capped) workers; a refusal of a multi-batch
+response is accepted (documented), but every (batch, token) pair handed out must be a prefix of the sequence and its
+token must resume exactly after that batch on the cap-less worker.  Steps may set ``tk``: their output reports whether
+the tick of that process() call carried request metadata (expected: not from the second call on).
 """
 
 from __future__ import annotations
